@@ -7,16 +7,18 @@ from nqlib import run_standard
 RULE = ("the real qmail-send.c stripvdomprepend()/addbounce()/del_dochan()/getcontrols()/injectbounce() (ASan+UBSan build of the working "
         "tree, in-memory file system and captured qmail-queue interface) against the Lean model Nq.Bounce: (P) every failure report over "
         "{LF,x,<,>,:,0x80} up to length %s and every recipient over {LF,a,b,@,-,.} up to length %s against a virtualdomains file with exact, "
-        "wildcard, catch-all, exception, user@domain and mixed-case entries, plus a recipient x report x write-behaviour (short writes, "
-        "ENOSPC, open failure) matrix, compared on the bytes appended to bounce/<id>; (I) every sender form (ordinary, empty, #@[], VERP "
-        "-@[] variants, quoted, 8-bit, LF-bearing) x which of me/bouncefrom/bouncehost/doublebounceto/doublebouncehost/virtualdomains exist, "
+        "wildcard, catch-all, exception, virtual-user (user@domain, also with a dash in the prepend) and mixed-case entries, once without and "
+        "once with a locals file that overlaps it, plus a recipient x report x write-behaviour (short writes, ENOSPC, open failure) matrix "
+        "under four locals/virtualdomains pairs, compared on the bytes appended to bounce/<id>; (I) every sender form (ordinary, empty, #@[], VERP "
+        "-@[] variants, quoted, 8-bit, LF-bearing) x which of me/bouncefrom/bouncehost/doublebounceto/doublebouncehost/virtualdomains/locals exist, "
         "and every failure point of injectbounce (info, stat, qmail_open, bounce/mess open and read, qmail_close, unlink) followed by a "
         "retry, compared on return value, envelope, full notice text, log and whether bounce/<id> remains; (C) the chain message -> bounce "
         "-> double bounce -> discard with every generated message failing; (D) spawner reports through del_dochan (status D/Z/K/other, "
         "dying or not, lengths around REPORTMAX, read chunkings); plus seeded random cases of all four kinds (reports up to 12 KB). Oracle "
-        "on the implementation's output: exactly one paragraph per failed recipient starting with its <address>: line, blank line only at "
+        "on the implementation's output: exactly one paragraph per failed recipient starting with its <address>: line (address = the recipient "
+        "with the prefix undone as rewrite() applied it: none for a locals domain, else virtual-user cut, else governing domain entry), blank line only at "
         "the end, report text shown up to LF->/, envelope rules, chain length <= 2, bounce file removed only after queueing, no second "
-        "notice after success; non-trivial = distinct case with a prefix removed, an LF-bearing recipient, a report with an empty line, a "
+        "notice after success; non-trivial = distinct case with a prefix removed or kept by the locals/virtual-user rules, an LF-bearing recipient, a report with an empty line, a "
         "queued/failed injection, a non-empty chain or a recorded bounce")
 
 run_standard("C14", "Nq.Props.C14", "drv_c14", "harness/c14_bounce.c", "qmail-send",
